@@ -27,7 +27,7 @@ L = 6
 EXHAUSTIVE = {'quick': False, 'thorough': True}
 
 SHAPES = ['buffer', 'parmap-thread', 'buffer>parmap', 'parmap>buffer', 'fifo-pre', 'abuffer', 'aparmap', 'aparmap-async',
-          'synciter', 'asynciter']
+          'synciter', 'asynciter', 'synciter(abuffer)', 'synciter(aparmap)', 'asynciter(buffer)']
 
 
 def gen_cases(tier, seed):
@@ -39,7 +39,7 @@ def gen_cases(tier, seed):
         for p in (0, 1, 2, 4):
             fails.append(('source', p, 'Boom'))
             fails.append(('source', p, 'StopRequested'))
-        if shape not in ('buffer', 'abuffer', 'synciter', 'asynciter'):
+        if shape not in ('buffer', 'abuffer', 'synciter', 'asynciter', 'synciter(abuffer)', 'asynciter(buffer)'):
             fails += [('func', p, 'Boom') for p in (0, 2, 4)]
             fails += [('func2', 1, 'Boom')]  # two failing elements: the first in stream order must win
         else:
@@ -49,7 +49,7 @@ def gen_cases(tier, seed):
         for size in (1, 2, 3):
             for stop in stops:
                 for fail in fails:
-                    if stop[0] == 'gc' and shape in ('abuffer', 'aparmap', 'aparmap-async', 'asynciter'):
+                    if stop[0] == 'gc' and shape in ('abuffer', 'aparmap', 'aparmap-async', 'asynciter', 'asynciter(buffer)'):
                         continue
                     cases.append({'shape': shape, 'size': size, 'stop': stop, 'fail': fail, 'n': L,
                                   'fuzz_seed': rng.randrange(1 << 30)})
@@ -204,7 +204,7 @@ def expected(case, items):
     site, p, kind = case['fail']
     shape = case['shape']
     out = []
-    wrap = (lambda x: ('w', x)) if shape not in ('buffer', 'abuffer', 'synciter', 'asynciter') else (lambda x: x)
+    wrap = (lambda x: ('w', x)) if shape not in ('buffer', 'abuffer', 'synciter', 'asynciter', 'synciter(abuffer)', 'asynciter(buffer)') else (lambda x: x)
     if shape == 'fifo-pre':
         wrap = lambda x: ('w', ('p', x))  # noqa: E731
     for i, x in enumerate(items):
@@ -360,6 +360,11 @@ def run_case(case):
             it = S.fifo_stream(src, func, capacity=size, preprocessor=pre)
             stats['pool'] = pool
             return it
+        if shape == 'synciter(abuffer)':
+            # the async -> sync adapter around an async pipeline that owns a thread
+            return iter(SA.SyncIter(SA.AsyncStream(asrc()).map(mapf_for(case)).buffer(size)))
+        if shape == 'synciter(aparmap)':
+            return iter(SA.SyncIter(SA.AsyncStream(asrc()).parmap(func_for(case), executor='thread', concurrency=size)))
         if shape == 'synciter':
             async def amapped():
                 m = mapf_for(case)
@@ -379,9 +384,12 @@ def run_case(case):
         if shape == 'asynciter':
             m = mapf_for(case)
             return SA.AsyncIter(m(x) for x in src).__aiter__()
+        if shape == 'asynciter(buffer)':
+            # the sync -> async adapter around a sync pipeline that owns a thread
+            return SA.AsyncIter(S.Stream(src).map(mapf_for(case)).buffer(size)).__aiter__()
         raise ValueError(shape)
 
-    is_async = shape in ('abuffer', 'aparmap', 'aparmap-async', 'asynciter')
+    is_async = shape in ('abuffer', 'aparmap', 'aparmap-async', 'asynciter', 'asynciter(buffer)')
     STALL['at'], STALL['dur'] = None, 0.0
     if case.get('stall') and case['stall'][0] == 'consumer':
         STALL['at'], STALL['dur'] = max(1, case['stall'][1]), case['stall'][2]
